@@ -126,7 +126,17 @@ def scad_xml(rng, lang, am, counters=None):
     return '\n'.join(out) + '\n'
 
 
-def write_scad(path, xml_text):
+def write_scad(path, xml_text, encoding='utf-8'):
+    """the .eom document may be stored in any encoding its XML declaration names (the parser has to follow the
+    declaration); iso-8859-1 falls back to utf-16 when the text has characters outside Latin-1"""
+    if encoding != 'utf-8':
+        if encoding == 'iso-8859-1':
+            try:
+                xml_text.encode('iso-8859-1')
+            except UnicodeEncodeError:
+                encoding = 'utf-16'
+        xml_text = xml_text.replace('encoding="utf-8"', 'encoding="%s"' % encoding, 1)
     with zipfile.ZipFile(path, 'w') as z:
-        z.writestr('model.eom', xml_text)
+        z.writestr('model.eom', xml_text.encode(encoding))
         z.writestr('meta.json', json.dumps({'scadVersion': '1.0.0'}))
+    return encoding
